@@ -448,7 +448,8 @@ type result struct {
 	err      error
 	panicMsg string
 	frame    string
-	tr       tree
+	tr       tree // what the disk holds
+	dur      tree // what a crash right after the command would leave (un-synced writes lost)
 	ops      []simfs.Op
 }
 
@@ -462,6 +463,7 @@ func execute(value rel.Value, fs *simfs.FS, out string) result {
 		r.panicMsg, r.frame = msg, frame
 	}
 	r.tr = fs.Snapshot()
+	r.dur = fs.DurableSnapshot()
 	r.ops = fs.Ops()
 	return r
 }
@@ -633,6 +635,10 @@ func Run(c *run.Ctx) {
 		c.Violate("exact-tree", "C19/wrong-tree/"+ctxShape(m), "tree is not the described one: %s (description %s; prior %v)", d, src, sortedTree(priorTr))
 		return
 	}
+	if d := diffTrees(m.tr, r.dur); d != "" {
+		c.Violate("exact-tree", "C19/not-durable", "the command reported success but not every byte was synced: after a crash the tree would be: %s (description %s)", d, src)
+		return
+	}
 
 	// Fault enumeration: the i-th disk operation of the fault-free run fails.
 	if c.Knob("faults", "off") != "enum" {
@@ -667,6 +673,10 @@ func Run(c *run.Ctx) {
 			continue
 		}
 		c.Probe("fault-tolerated")
+		if d := diffTrees(m.tr, r2.dur); d != "" {
+			c.Violate("error-reported", "C19/fault-swallowed/"+o.Kind+"/not-durable", "I/O error injected at op %d (%s %s): the command reported success although the bytes never became durable: after a crash %s (description %s)", i, o.Kind, o.Path, d, src)
+			return
+		}
 		if d := diffTrees(m.tr, r2.tr); d != "" {
 			c.Violate("error-reported", "C19/fault-swallowed/"+o.Kind, "I/O error injected at op %d (%s %s): the command reported success but the tree is not the described one: %s (description %s)", i, o.Kind, o.Path, d, src)
 			return
